@@ -11,16 +11,29 @@
     argument values; the rest parameter is a fresh list of the surplus; the argument-count rule;
   * shape errors are located diagnostics.
 
-  Patterns are treated at depth 1 with names as targets (`bind_nested_partial` of DESIGN.md §6): the general
-  statement over nested patterns with computed keys interleaves evaluation with binding,
-      theorem bind_nested : bind p v succeeds ↔ shape p v ∧ names distinct, and binds each leaf to `project path v`
-  and is not proved here; what is missing is the induction over the pattern tree (each nested level re-enters
-  `bindNext` with the names-in-binding set threaded exactly as `bindVars` threads it below).
+  The theorems of the first sections treat patterns of depth 1 with names as targets.  The last section
+  (`## nested patterns`) is the general theorem over *arbitrarily nested* pure declaration patterns
+  (`C13N.Pat`, Lemmas/C13NestedDefs.lean: names and `_`, list patterns with an optional collecting last item
+  — itself a pattern —, object patterns of shorthand names, literal-key pairs `"k": p` and `..rest`):
+      theorem bind_nested : for fuel ≥ p.size, `bindNext … p.toExpr v none true` into the scope cell `a` is ok ↔
+        `proj p σ v` is defined (shape) ∧ the leaf names are new and pairwise distinct (`FreshBs`), and then the
+        state is `σ` + one fresh cell per `..rest` (`drop n` / the filtered map) with exactly the leaves of
+        `proj` declared in cell `a`, in pattern order, and nothing else changed (`bind_nested_frame`,
+        `bind_nested_leaves`, `rest_cells`); `bind_nested_sound` is the ⇒ half at any fuel, `bind_nested_not_ok` the failing half;
+      theorem bind_nested_exact / bind_nested_any_fuel : on *every* outcome (each located error at any depth,
+        with the partial bindings made before it) the engine equals the pure, fuel-free `C13N.pmatch`.
+  Proved by induction over the pattern tree (Lemmas/C13Nested*.lean).  Not covered (kept out of `Pat` because
+  they evaluate expressions in the middle of the binding): computed / interpolated keys and index, range-index
+  and property targets; assignment mode (`=`) of nested patterns (the depth-1 theorems above cover both modes).
 -/
 import SeedProofs.Lemmas.C13Obj
 import SeedProofs.Lemmas.C13Call
+import SeedProofs.Lemmas.C13NestedFuel
+import SeedModel.Run
 namespace Seed.C13
 open Seed Gen
+
+-- audit: Seed.C13N.bindNext_pat Seed.C13N.bindList_pat Seed.C13N.bindObject_pat Seed.C13N.pmatch_agree Seed.C13N.proj_ext Seed.C13N.bindNext_pat_any Seed.C13N.FreshBs_iff Seed.C13N.FreshBs.lookup
 
 /-! ## example state -/
 
@@ -415,5 +428,266 @@ theorem shape_op_on_pattern (n : Nat) (σ : State) (sc : List Addr) (names : Lis
     bindNext (n + 1) σ sc names (.mk (.List items c) loc) rhs (some op) decl = errAt loc Leaf.OpOnListDestructure σ ∧
     bindNext (n + 1) σ sc names (.mk (.Object props) loc) rhs (some op) decl = errAt loc Leaf.OpOnObjectDestructure σ := by
   constructor <;> rw [bindNext]
+
+/-! ## nested patterns
+
+  `C13N.Pat` are the pure declaration patterns of any depth, `Pat.toExpr` the expression the parser builds for
+  them.  Two fuel-free readings (Lemmas/C13NestedDefs.lean):
+  * `C13N.proj p σ v = some (bs, σ1)`: `v` has the shape of `p` on the heap of `σ`; `bs` are the leaves in pattern
+    order — (name, the stored value itself, position of the name), `_` leaves omitted —; `σ1` is `σ` with one
+    fresh cell per `..rest` pushed, in pattern order, holding `xs.drop (len - 1)` resp. the source object filtered
+    to the keys that were not named;
+  * `C13N.pmatch`: the engine itself as a pure total function of the names-in-binding, the contents of the scope
+    cell and an allocate-only state, with every located error.
+-/
+
+open C13N
+
+/-- **every outcome**: with fuel at least the size of the pattern the engine on a nested declaration pattern is
+    the pure engine — success, each located error at whatever depth (with the bindings made before it), crash -/
+theorem bind_nested_exact {σ : State} {a : Addr} {m : ScopeMap} (sc : List Addr) (names : List (List Char)) (p : Pat)
+    (v : SVal) (fuel : Nat) (hs : σ.getScope a = some m) (hf : p.size ≤ fuel) :
+    bindNext fuel σ (a :: sc) names p.toExpr v none true = (pmatch p names m σ v).toRes a := by
+  have h := bindNext_pat a sc p fuel names m σ v hf ⟨m, hs⟩
+  rw [set_self hs] at h
+  exact h
+
+/-- … and at any fuel whatsoever it is that answer or a time-out -/
+theorem bind_nested_any_fuel {σ : State} {a : Addr} {m : ScopeMap} (sc : List Addr) (names : List (List Char)) (p : Pat)
+    (v : SVal) (fuel : Nat) (hs : σ.getScope a = some m) :
+    bindNext fuel σ (a :: sc) names p.toExpr v none true = .timeout ∨
+    bindNext fuel σ (a :: sc) names p.toExpr v none true = (pmatch p names m σ v).toRes a :=
+  bindNext_pat_any sc names p v hs fuel
+
+theorem toRes_ok_iff (a : Addr) (r : MRes) (names' : List (List Char)) (σ' : State) :
+    r.toRes a = .ok names' σ' ↔ ∃ M S, r = .ok names' M S ∧ σ' = S.set a (.scope M) := by
+  cases r with
+  | ok N M S =>
+    simp only [MRes.toRes]
+    constructor
+    · intro h; cases h; exact ⟨M, S, rfl, rfl⟩
+    · rintro ⟨M', S', h, rfl⟩; cases h; rfl
+  | err loc leaf M S =>
+    simp only [MRes.toRes, errAt]
+    constructor
+    · intro h; cases h
+    · rintro ⟨_, _, h, _⟩; cases h
+  | crash w M S =>
+    simp only [MRes.toRes]
+    constructor
+    · intro h; cases h
+    · rintro ⟨_, _, h, _⟩; cases h
+
+/-- **bind_nested**: a declaration through a pattern of any depth succeeds exactly when the value has the shape of
+    the pattern and the leaf names are pairwise distinct and new; it then has declared exactly the leaves of `proj`
+    (each bound to the stored value at its path) in the scope cell, newest first, the names-in-binding grew by the
+    leaf names, and the rest of the state is `proj`'s: the source plus the fresh rest cells -/
+theorem bind_nested {σ : State} {a : Addr} {m : ScopeMap} (sc : List Addr) (names : List (List Char)) (p : Pat)
+    (v : SVal) (fuel : Nat) (hs : σ.getScope a = some m) (hf : p.size ≤ fuel) (names' : List (List Char)) (σ' : State) :
+    bindNext fuel σ (a :: sc) names p.toExpr v none true = .ok names' σ' ↔
+      ∃ bs σ1, proj p σ v = some (bs, σ1) ∧ FreshBs names m bs ∧
+        names' = bndNames bs ++ names ∧ σ' = σ1.set a (.scope (bs.reverse ++ m)) := by
+  rw [bind_nested_exact sc names p v fuel hs hf, toRes_ok_iff]
+  constructor
+  · rintro ⟨M, S, h, rfl⟩
+    obtain ⟨bs, e, fr, rfl, rfl⟩ := (pmatch_agree p names m σ v _ _ _).mp h
+    exact ⟨bs, S, e, fr, rfl, rfl⟩
+  · rintro ⟨bs, σ1, e, fr, rfl, rfl⟩
+    exact ⟨_, σ1, (pmatch_agree p names m σ v _ _ _).mpr ⟨bs, e, fr, rfl, rfl⟩, rfl⟩
+
+/-- the soundness half needs no fuel bound: whenever the engine answers ok, it is with the leaves of `proj` -/
+theorem bind_nested_sound {σ : State} {a : Addr} {m : ScopeMap} (sc : List Addr) (names : List (List Char)) (p : Pat)
+    (v : SVal) (fuel : Nat) (hs : σ.getScope a = some m) {names' : List (List Char)} {σ' : State}
+    (h : bindNext fuel σ (a :: sc) names p.toExpr v none true = .ok names' σ') :
+    ∃ bs σ1, proj p σ v = some (bs, σ1) ∧ FreshBs names m bs ∧
+      names' = bndNames bs ++ names ∧ σ' = σ1.set a (.scope (bs.reverse ++ m)) := by
+  have h' := bindNext_stable (Nat.le_max_left fuel p.size) h (fun e => by cases e)
+  exact (bind_nested sc names p v _ hs (Nat.le_max_right _ _) names' σ').mp h'
+
+/-- what "new and pairwise distinct" means -/
+theorem fresh_iff (bs : List Bnd) (names : List (List Char)) (m : ScopeMap) :
+    FreshBs names m bs ↔ (bs.map Prod.fst).Nodup ∧ ∀ x ∈ bs.map Prod.fst, x ∉ names ∧ scopeLookup x m = none :=
+  FreshBs_iff bs names m
+
+/-- the frame: the scope cell holds the leaves (in reverse pattern order) on top of what it held; every other cell
+    of the old heap — in particular the source lists and objects — is untouched; the cells beyond are the rest
+    cells of `proj`; nothing is printed -/
+theorem bind_nested_frame {σ σ1 : State} {a : Addr} {m : ScopeMap} {p : Pat} {v : SVal} {bs : List Bnd}
+    (hs : σ.getScope a = some m) (hp : proj p σ v = some (bs, σ1)) :
+    (σ1.set a (.scope (bs.reverse ++ m))).getScope a = some (bs.reverse ++ m) ∧
+    (∀ b, b ≠ a → b < σ.heap.size → (σ1.set a (.scope (bs.reverse ++ m))).heap[b]? = σ.heap[b]?) ∧
+    (∀ b, b ≠ a → (σ1.set a (.scope (bs.reverse ++ m))).heap[b]? = σ1.heap[b]?) ∧
+    σ.heap.size ≤ (σ1.set a (.scope (bs.reverse ++ m))).heap.size ∧
+    (σ1.set a (.scope (bs.reverse ++ m))).out = σ.out := by
+  have he := proj_ext p σ v bs σ1 hp
+  have hs1 : IsScope σ1 a := IsScope.ext ⟨m, hs⟩ he
+  refine ⟨getScope_setScope hs1 _, fun b hb hlt => ?_, fun b hb => State.heap_set_other _ _ hb, ?_, ?_⟩
+  · rw [State.heap_set_other _ _ hb]; exact he.2.1 b hlt
+  · rw [State.size_set]; exact he.1
+  · rw [State.out_set]; exact he.2.2
+
+/-- the leaves can be read back: after the bind every leaf name evaluates to the value at its path, and every name
+    that is not a leaf reads as before -/
+theorem bind_nested_leaves {σ σ1 : State} {a : Addr} {m : ScopeMap} (sc : List Addr) {names : List (List Char)} {p : Pat}
+    {v : SVal} {bs : List Bnd} (hs : σ.getScope a = some m) (hp : proj p σ v = some (bs, σ1)) (hf : FreshBs names m bs) :
+    (∀ x w l, (x, w, l) ∈ bs → scopeGet (σ1.set a (.scope (bs.reverse ++ m))) (a :: sc) x = some w) ∧
+    (∀ x, (∀ b ∈ bs, b.1 ≠ x) → scopeLookup x (bs.reverse ++ m) = scopeLookup x m) := by
+  have hget := (bind_nested_frame hs hp).1
+  refine ⟨fun x w l hm => ?_, fun x hx => lookup_other hx⟩
+  simp only [scopeGet, hget, hf.lookup hm]
+
+/-- a `:=` statement with a nested pattern on the left -/
+theorem declare_nested {n : Nat} {σ σ1 σ2 : State} {a : Addr} {sc : List Addr} {m : ScopeMap} {rhs : Expr} {v : SVal}
+    {p : Pat} {bs : List Bnd} (he : evalExpr n σ (a :: sc) rhs = .ok v σ1) (hs : σ1.getScope a = some m)
+    (hf : p.size ≤ n) (hp : proj p σ1 v = some (bs, σ2)) (hfr : FreshBs [] m bs) :
+    evalStmt (n + 1) σ (a :: sc) (.Declare p.toExpr rhs) = .ok .none (σ2.set a (.scope (bs.reverse ++ m))) := by
+  rw [evalStmt, he]
+  simp only [Res.bind]
+  rw [(bind_nested sc [] p v n hs hf _ _).mpr ⟨bs, σ2, hp, hfr, rfl, rfl⟩]
+
+/-- the outermost mismatch of a nested pattern is the documented located error at the pattern's own position (the
+    inner ones are in `pmatch`, e.g. the example below) -/
+theorem bind_nested_outer_error {σ : State} {a : Addr} {m : ScopeMap} (sc : List Addr) (names : List (List Char))
+    (ps : PatList) (pr : PatProps) (c : Bool) (l : Loc) (v : SVal) (fuel : Nat) (hs : σ.getScope a = some m) :
+    ((∀ b, v.v ≠ .list b) → (PatList.size ps + 1 ≤ fuel) →
+      bindNext fuel σ (a :: sc) names (Pat.list ps c l).toExpr v none true =
+        errAt l (Leaf.ListDestructureOnNonList v.v.kind) σ) ∧
+    ((∀ b, v.v ≠ .obj b) → (PatProps.size pr + 1 ≤ fuel) →
+      bindNext fuel σ (a :: sc) names (Pat.obj pr l).toExpr v none true =
+        errAt l (Leaf.ObjectDestructureOnNonObject v.v.kind) σ) ∧
+    (∀ b xs, v.v = .list b → σ.getList b = some xs → (PatList.size ps + 1 ≤ fuel) →
+      (c = false → ps.length ≠ xs.length →
+        bindNext fuel σ (a :: sc) names (Pat.list ps c l).toExpr v none true =
+          errAt l (Leaf.ListDestructureItemMismatch ps.length xs.length) σ) ∧
+      (c = true → ps.length - 1 > xs.length →
+        bindNext fuel σ (a :: sc) names (Pat.list ps c l).toExpr v none true =
+          errAt l (Leaf.ListCollectTooFew ps.length xs.length) σ)) := by
+  refine ⟨fun hv hf => ?_, fun hv hf => ?_, fun b xs hv hb hf => ⟨fun hc hl => ?_, fun hc hl => ?_⟩⟩
+  · rw [bind_nested_exact sc names _ v fuel hs (by simpa [Pat.size] using hf), pmatch]
+    cases hvv : v.v <;> simp only [MRes.toRes, set_self hs, Val.kind]
+    exact absurd hvv (hv _)
+  · rw [bind_nested_exact sc names _ v fuel hs (by simpa [Pat.size] using hf), pmatch]
+    cases hvv : v.v <;> simp only [MRes.toRes, set_self hs, Val.kind]
+    exact absurd hvv (hv _)
+  · rw [bind_nested_exact sc names _ v fuel hs (by simpa [Pat.size] using hf), pmatch]
+    subst hc
+    simp only [hv, hb, Bool.false_and, Bool.false_eq_true, if_false, Bool.not_false, Bool.true_and, decide_eq_true_eq, hl,
+      ne_eq, not_false_eq_true, if_true, MRes.toRes, set_self hs]
+  · rw [bind_nested_exact sc names _ v fuel hs (by simpa [Pat.size] using hf), pmatch]
+    subst hc
+    simp only [hv, hb, Bool.true_and, decide_eq_true_eq, hl, if_true, MRes.toRes, set_self hs]
+
+/-- when the shape does not match, or a leaf name is not new, the answer is a located error (which one: `pmatch`,
+    by `bind_nested_exact`) or — on an ill-typed heap only, excluded by C02 — a crash; never ok, never a time-out -/
+theorem bind_nested_not_ok {σ : State} {a : Addr} {m : ScopeMap} (sc : List Addr) (names : List (List Char)) (p : Pat)
+    (v : SVal) (fuel : Nat) (hs : σ.getScope a = some m) (hf : p.size ≤ fuel)
+    (hno : ∀ bs σ1, proj p σ v = some (bs, σ1) → ¬ FreshBs names m bs) :
+    (∃ loc leaf σ', bindNext fuel σ (a :: sc) names p.toExpr v none true = errAt loc leaf σ') ∨
+    (∃ w σ', bindNext fuel σ (a :: sc) names p.toExpr v none true = .crash w σ') := by
+  rw [bind_nested_exact sc names p v fuel hs hf]
+  cases hr : pmatch p names m σ v with
+  | ok N M S =>
+    obtain ⟨bs, e, fr, _⟩ := (pmatch_agree p names m σ v N M S).mp hr
+    exact absurd fr (hno bs S e)
+  | err loc leaf M S => exact Or.inl ⟨loc, leaf, _, rfl⟩
+  | crash w M S => exact Or.inr ⟨w, _, rfl⟩
+
+/-- the collecting position of a list pattern and the `..rest` of an object pattern are matched against a *fresh*
+    cell (its address was not in use) that holds exactly the tail `drop (len - 1)` / the properties whose keys remain -/
+theorem rest_cells (σ : State) (p : Pat) (r : PatList) (xs : List SVal) (len : Nat) (x : List Char) (l : Loc) (q : PatProps)
+    (o : ObjMap) (total : Nat) (rem : List (List Char)) :
+    projList (.cons p r) true xs (len - 1) len σ =
+      seqP (proj p (σ.alloc (.list (xs.drop (len - 1)))).2 (SVal.plain (.list σ.heap.size)))
+        (fun σ' => projList r true xs (len - 1 + 1) len σ') ∧
+    projProps (.rest x l q) o (total - 1) total rem σ =
+      seqP (projName (σ.alloc (.obj (o.filter fun kv => rem.contains kv.1))).2 x l (SVal.plain (.obj σ.heap.size)))
+        (fun σ' => projProps q o (total - 1) total rem σ') ∧
+    σ.heap[σ.heap.size]? = none ∧
+    (σ.alloc (.list (xs.drop (len - 1)))).2.getList σ.heap.size = some (xs.drop (len - 1)) ∧
+    (σ.alloc (.obj (o.filter fun kv => rem.contains kv.1))).2.getObj σ.heap.size =
+      some (o.filter fun kv => rem.contains kv.1) := by
+  refine ⟨?_, ?_, ?_, ?_, ?_⟩
+  · rw [projList]; simp
+  · rw [projProps]; simp
+  · simp
+  · exact getList_eq_some.mpr (State.alloc_heap_new σ _)
+  · exact getObj_eq_some.mpr (State.alloc_heap_new σ _)
+
+/-! ### the depth-3 example `[a, {"k": [b, ..c], ..r}, _] := [1, {"k": [2, 3, 4], "z": 5}, 6]` -/
+
+/-- `[a, {"k": [b, ..c], ..r}, _]`, with the positions the parser gives -/
+def pex : Pat :=
+  .list (.cons (.var c!"a" (1, 2))
+        (.cons (.obj (.pair c!"k" (1, 6) (.list (.cons (.var c!"b" (1, 12)) (.cons (.var c!"c" (1, 17)) .nil)) true (1, 11))
+                     (.rest c!"r" (1, 23) .nil)) (1, 5))
+        (.cons (.var c!"_" (1, 27)) .nil))) false (1, 1)
+
+/-- `Pat.toExpr` is what the parser builds -/
+example : parseExprTop c!"[a, {\"k\": [b, ..c], ..r}, _]" = .ok pex.toExpr := by with_unfolding_all rfl
+
+/-- scope cell 0 (holding `print`), cell 1 = `[1, {…}, 6]`, cell 2 = `{"k": [2, 3, 4], "z": 5}`, cell 3 = `[2, 3, 4]` -/
+def σnest : State :=
+  ⟨#[.scope [(c!"print", SVal.plain (.builtin c!"print" .print), (0, 0))],
+     .list [SVal.plain (.int 1), SVal.plain (.obj 2), SVal.plain (.int 6)],
+     .obj [(c!"k", SVal.plain (.list 3)), (c!"z", SVal.plain (.int 5))],
+     .list [SVal.plain (.int 2), SVal.plain (.int 3), SVal.plain (.int 4)]], []⟩
+
+/-- the leaves, in pattern order; `c` and `r` are bound to the fresh cells 4 = `[3, 4]` and 5 = `{"z": 5}` -/
+def bsNest : List Bnd :=
+  [(c!"a", SVal.plain (.int 1), (1, 2)), (c!"b", SVal.plain (.int 2), (1, 12)),
+   (c!"c", SVal.plain (.list 4), (1, 17)), (c!"r", SVal.plain (.obj 5), (1, 23))]
+
+def σnest1 : State :=
+  ⟨(σnest.heap.push (.list [SVal.plain (.int 3), SVal.plain (.int 4)])).push (.obj [(c!"z", SVal.plain (.int 5))]), []⟩
+
+/-- the hypotheses of `bind_nested` (right-hand side) hold … -/
+example : σnest.getScope 0 = some [(c!"print", SVal.plain (.builtin c!"print" .print), (0, 0))] ∧
+    pex.size = 18 ∧ proj pex σnest (SVal.plain (.list 1)) = some (bsNest, σnest1) ∧
+    FreshBs [] [(c!"print", SVal.plain (.builtin c!"print" .print), (0, 0))] bsNest :=
+  ⟨by rfl, by rfl, by rfl, by simp [FreshBs, bsNest, scopeLookup]⟩
+
+/-- … and this is the engine's answer (the left-hand side), computed by the evaluator itself -/
+example : bindNext 18 σnest [0] [] pex.toExpr (SVal.plain (.list 1)) none true =
+    .ok [c!"r", c!"c", c!"b", c!"a"]
+      (σnest1.set 0 (.scope (bsNest.reverse ++ [(c!"print", SVal.plain (.builtin c!"print" .print), (0, 0))]))) := by
+  with_unfolding_all rfl
+
+/-- hypotheses of `declare_nested`: `xs` holds the list of cell 1, the statement is `[a, {"k": [b, ..c], ..r}, _] := xs` -/
+example : evalExpr 18 (σnest.set 0 (.scope [(c!"xs", SVal.plain (.list 1), (0, 0))])) [0] (.mk (.Var c!"xs") (1, 33)) =
+      .ok (SVal.plain (.list 1)) (σnest.set 0 (.scope [(c!"xs", SVal.plain (.list 1), (0, 0))])) ∧
+    (σnest.set 0 (.scope [(c!"xs", SVal.plain (.list 1), (0, 0))])).getScope 0 = some [(c!"xs", SVal.plain (.list 1), (0, 0))] ∧
+    proj pex (σnest.set 0 (.scope [(c!"xs", SVal.plain (.list 1), (0, 0))])) (SVal.plain (.list 1)) =
+      some (bsNest, σnest1.set 0 (.scope [(c!"xs", SVal.plain (.list 1), (0, 0))])) ∧
+    FreshBs [] [(c!"xs", SVal.plain (.list 1), (0, 0))] bsNest :=
+  ⟨by with_unfolding_all rfl, by rfl, by with_unfolding_all rfl, by simp [FreshBs, bsNest, scopeLookup]⟩
+
+/-- the whole pipeline on the source text -/
+example : (run 60 c!"t.sd"
+      c!"[a, {\"k\": [b, ..c], ..r}, _] := [1, {\"k\": [2, 3, 4], \"z\": 5}, 6];\nprint(a); print(b); print(c); print(r);\n").out =
+    [c!"1", c!"2", c!"[\n    3,\n    4,\n]", c!"{\n    \"z\": 5,\n}"] := by
+  decide +kernel
+
+/-- an inner mismatch: in `[a, [b]] := [1, 2]` the error is the inner pattern's, at the inner position, and `a` is
+    already declared when it is raised (the engine does not roll back) -/
+example : pmatch (.list (.cons (.var c!"a" (1, 2)) (.cons (.list (.cons (.var c!"b" (1, 6)) .nil) false (1, 5)) .nil)) false (1, 1))
+      [] [] ⟨#[.scope [], .list [SVal.plain (.int 1), SVal.plain (.int 2)]], []⟩ (SVal.plain (.list 1)) =
+    .err (1, 5) (Leaf.ListDestructureOnNonList .Int) [(c!"a", SVal.plain (.int 1), (1, 2))]
+      ⟨#[.scope [], .list [SVal.plain (.int 1), SVal.plain (.int 2)]], []⟩ := by rfl
+
+/-- a name used twice at different depths: `[a, [a]] := [1, [2]]` -/
+example : pmatch (.list (.cons (.var c!"a" (1, 2)) (.cons (.list (.cons (.var c!"a" (1, 6)) .nil) false (1, 5)) .nil)) false (1, 1))
+      [] [] ⟨#[.scope [], .list [SVal.plain (.int 1), SVal.plain (.list 2)], .list [SVal.plain (.int 2)]], []⟩
+      (SVal.plain (.list 1)) =
+    .err (1, 6) (Leaf.AlreadyInBinding c!"a") [(c!"a", SVal.plain (.int 1), (1, 2))]
+      ⟨#[.scope [], .list [SVal.plain (.int 1), SVal.plain (.list 2)], .list [SVal.plain (.int 2)]], []⟩ := by rfl
+
+/-- hypotheses of `bind_nested_outer_error` are satisfiable -/
+example : (∀ b, (SVal.plain (.int 3)).v ≠ .list b) ∧ PatList.size (.cons (.var c!"a" (1, 2)) .nil) + 1 ≤ 4 :=
+  ⟨fun _ h => (by cases h), by decide⟩
+
+/-- the key `_` is a wildcard in object patterns as well: `{"_": x} := {"_": 1}` binds nothing (`x` stays undeclared) -/
+example : proj (.obj (.pair c!"_" (1, 2) (.var c!"x" (1, 7)) .nil) (1, 1))
+      ⟨#[.scope [], .obj [(c!"_", SVal.plain (.int 1))]], []⟩ (SVal.plain (.obj 1)) =
+    some ([], ⟨#[.scope [], .obj [(c!"_", SVal.plain (.int 1))]], []⟩) := by rfl
 
 end Seed.C13
